@@ -3,7 +3,7 @@
    C08_spec.v (ground truth about presented strings: as_access / denotes / subj_live;
    the reference monitor spec).  [live_in g n tr]: the storage g holds access token n
    with record tr and it is not expired. *)
-From OIDC Require Import Lib C08_OP C08_spec C08_proofs.
+From OIDC Require Import Lib C08_OP C08_spec C08_proofs C08_length_proofs.
 
 (* The reference monitor (property predicate) accepts every run of the model: all client
    tables, all histories on both routers - outside the input class of the recorded finding
@@ -190,3 +190,43 @@ Theorem C08_hint_option_says_nothing_about_access_tokens : forall b, k_at (desig
   k_at (designated [OptHintKeys b; OptATKeys false]) = false /\ k_at (designated [OptATKeys false; OptHintKeys b]) = false.
 Proof. exact hint_option_says_nothing_about_access_tokens. Qed.
 Print Assumptions C08_hint_option_says_nothing_about_access_tokens.
+
+(* Round 11 - the LENGTH of a presented string (subjects of up to 255 characters and more, hence
+   long opaque tokens) plays no role.  Userinfo, introspection and revocation look up the id of a
+   sealed text "id:sub"; the subject part does not enter the answer (any state, both routers). *)
+Theorem C08_sealed_subject_irrelevant : forall cl r g c id sub1 sub2 h,
+  userinfo r g (Opq id sub1) = userinfo r g (Opq id sub2) /\
+  introspect cl r g c (Opq id sub1) = introspect cl r g c (Opq id sub2) /\
+  revoke cl r g c (Opq id sub1) h = revoke cl r g c (Opq id sub2) h.
+Proof. exact sealed_subject_irrelevant. Qed.
+Print Assumptions C08_sealed_subject_irrelevant.
+
+(* the model SERVES a sealed text that names a live token, whatever (and however long) its subject
+   part: userinfo answers the token's claims, introspection active:true to every caller its router
+   authenticates and that is in the token's audience.  (A statement about the model: C08's text
+   promises no service; the correspondence run holds the code to it.) *)
+Theorem C08_live_sealed_token_served : forall cl r g n tr sub, live_in g n tr ->
+  userinfo r g (Opq (AT n) sub) = OInfo (if string_in "openid" (tr_scopes tr) then tr_sub tr else "") /\
+  forall c caller,
+    (match r with Prov => auth_intro_prov cl c | Leg => auth_intro_leg cl c end) = Some caller ->
+    string_in caller (tr_aud tr) = true ->
+    introspect cl r g c (Opq (AT n) sub) = OIntro true (tr_sub tr) (tr_client tr) (tr_scopes tr) true.
+Proof. exact live_sealed_token_served. Qed.
+Print Assumptions C08_live_sealed_token_served.
+
+(* the endpoints AGREE about every presented string: userinfo answers claims exactly for the
+   strings token exchange reads as an access token and finds live in the storage *)
+Theorem C08_endpoints_agree : forall r g t,
+  (exists sub, userinfo r g t = OInfo sub) <->
+  (exists id s, read_x g false TAccess t = Some (id, s) /\ x_live g TAccess id = true).
+Proof. exact endpoints_agree. Qed.
+Print Assumptions C08_endpoints_agree.
+
+(* non-vacuity: a history with a subject of 255 characters (with colons) - issued, served at
+   userinfo and introspection, accepted by token exchange; the reference monitor accepts the run *)
+Theorem C08_long_subject_nonvacuous :
+  String.length long_sub = 255 /\
+  firstn 3 (model long_history) = [OIssued (AT 2) NoId; OInfo long_sub; OIntro true long_sub "web" ["openid"] true] /\
+  spec long_history (model long_history) = true /\ unconfused long_history = true.
+Proof. exact long_subject_nonvacuous. Qed.
+Print Assumptions C08_long_subject_nonvacuous.
